@@ -16,7 +16,6 @@ import (
 
 	"github.com/AdguardTeam/golibs/netutil"
 	"go.etcd.io/bbolt"
-	"golang.org/x/crypto/bcrypt"
 )
 
 // ---------------------------------------------------------------------------
@@ -292,19 +291,6 @@ func c12Prelude() []c12Script {
 // ---------------------------------------------------------------------------
 // handleLogin end to end.
 
-const (
-	c12User = "admin"
-	c12Pass = "correct horse"
-)
-
-func c12Users(t testing.TB) []webUser {
-	h, err := bcrypt.GenerateFromPassword([]byte(c12Pass), bcrypt.MinCost)
-	if err != nil {
-		t.Fatal(err)
-	}
-	return []webUser{{Name: c12User, PasswordHash: string(h)}, {Name: "second", PasswordHash: string(h)}}
-}
-
 // c12LoginHistory: the real mux with the real registration of /control/login,
 // a real Auth; the clock is advanced by moving every stored deadline back.
 func c12LoginHistory(t *testing.T, out *vfOut, rnd *vfRand, users []webUser, name string, max uint, block time.Duration,
@@ -524,12 +510,6 @@ func c12Disk(a *Auth) map[string]*session {
 		})
 	})
 	return m
-}
-
-// c12AlignSecond makes sure the next few milliseconds do not cross a second.
-func c12AlignSecond() {
-	for time.Now().Nanosecond() > 950_000_000 {
-	}
 }
 
 func c12SessHistory(t *testing.T, out *vfOut, rnd *vfRand, users []webUser, name string, n int, script []string) {
